@@ -314,6 +314,9 @@ def k3(chk, repo):
                 rows6 = e.val
         key = "FEM.setup: clamped node [%s]" % ("symmetry" if sym else "full span")
         ny = sp.Symbol("ny", integer=True, positive=True)
+        if idx is not None and idx.sym is None and sym is not None and idx.cfg:
+            chk.violation("K3", key, m.cls.where, "the clamped node index is not a function of the node count alone (it is computed as '%s' under %s); the property clamps node %s" % (idx.cx or "a value derived from mesh coordinates / rounding", sig_txt(run.sigma), "ny-1" if sym else "(ny-1)//2"))
+            continue
         if idx is None or idx.sym is None or sym is None:
             chk.undecided("K3", key, m.cls.where, "clamped node index not resolved")
             continue
@@ -331,7 +334,47 @@ def k3(chk, repo):
             chk.violation("K3", key, m.cls.where, "clamped node index is %s under %s; the root node is %s" % (got, sig_txt(run.sigma), want))
 
 
+def k4(chk, repo):
+    """The documented tiny-load threshold of CreateRHS is an absolute constant."""
+    chk.rule("K4", "the only non-linearity of the load path (CreateRHS zeroing of tiny loads) compares |force| with an input-independent constant, so loads well above it pass through linearly", min_decided=1)
+    c = repo.cls("openaerostruct/structures/create_rhs.py", "CreateRHS")
+    m = component_model(repo, c)
+    found = False
+    for r in m.runs.get("compute", []):
+        for e in r.events:
+            if e.kind == "store" and e.cell and e.cell[0] == "out" and e.sub_vals:
+                for sv, txt in zip(e.sub_vals, e.subs):
+                    if sv.kind in ("bool", "arr") and "<" in txt or ">" in txt:
+                        found = True
+                        node = e.node.targets[0].slice if hasattr(e.node, "targets") else None
+                        thr_dep = set()
+                        thr_txt = None
+                        if isinstance(node, ast.Compare):
+                            # which side is the threshold: the one without abs()
+                            for side in [node.left] + list(node.comparators):
+                                if "abs" not in unparse(side):
+                                    thr_txt = unparse(side)
+                                    # dependence of the threshold expression on inputs / outputs
+                                    names = {n.id for n in ast.walk(side) if isinstance(n, ast.Name)}
+                                    for ev2 in r.events:
+                                        if ev2.kind == "assign" and ev2.name in names and ev2.val is not None:
+                                            thr_dep |= {d for d in ev2.val.dep if d.startswith(("in:", "out:"))}
+                                    if any(isinstance(n, ast.Subscript) and unparse(n.value) in ("inputs", "outputs") for n in ast.walk(side)):
+                                        thr_dep.add("direct")
+                        key = "CreateRHS.compute: zeroing threshold"
+                        if thr_txt is None:
+                            chk.undecided("K4", key, where(c, e.lineno), "threshold not isolated")
+                        elif thr_dep:
+                            chk.violation("K4", key, where(c, e.lineno), "the zeroing threshold '%s' depends on the loads themselves (%s): components much smaller than the largest load are dropped, the response is no longer linear in the loads" % (thr_txt, sorted(thr_dep)))
+                        else:
+                            chk.ok("K4", key, where(c, e.lineno), "absolute threshold %s" % thr_txt)
+    if not found:
+        chk.info("K4", "CreateRHS.compute: zeroing threshold", c.where, "no masked store found (no non-linearity)")
+        chk.ok("K4", "CreateRHS.compute: no masked store", c.where, "load path fully linear")
+
+
 def run(chk, repo, tier):
     k1(chk, repo)
     k2(chk, repo)
     k3(chk, repo)
+    k4(chk, repo)
